@@ -63,7 +63,7 @@ func (p *Path) arbitrary(t types.Type, name string, depth int, site ssa.Instruct
 			v := p.freshNamed("i_"+name, smt.SInt)
 			p.inputs = append(p.inputs, &Input{Name: name, Kind: "int", T: v})
 			if u.Kind() == types.Float32 {
-				return FloatV{Tok: v, Prov: &Prov{Fn: "arb32"}}
+				return FloatV{Tok: v, Bits: 32}
 			}
 			return FloatV{Tok: v}
 		case u.Info()&types.IsString != 0:
